@@ -3,6 +3,7 @@ package rules
 import (
 	"fmt"
 	"go/token"
+	"go/types"
 	"strings"
 
 	"golang.org/x/tools/go/ssa"
@@ -138,4 +139,119 @@ func c17EncoderWholeValue(c *Ctx) {
 	if n == 0 {
 		c.Ok(rule, "services/decoder", "-", "no value is assembled through copy() into a bounded buffer")
 	}
+}
+
+// c17RequestBodyWhole: what the IPP decoder gets to see is the request body in full. Reader.Read may return fewer bytes
+// than the buffer holds (the body sits behind the bufio.Reader that parsed the head and hands out what is buffered at
+// that moment), so the bytes handed to the message decoder must come from a read-to-the-end: ReadAll, or a buffer filled
+// by io.ReadFull / io.ReadAtLeast / io.Copy / ReadFrom, directly or through a helper all of whose results are such.
+func c17RequestBodyWhole(c *Ctx) {
+	p := c.P
+	const rule = "request-body-read-whole"
+	var handle *ssa.Function
+	for _, sv := range Services(c) {
+		if hasName(sv, "ipp") {
+			handle = sv.Handle
+		}
+	}
+	if !c.Anchor(handle != nil, rule, "ipp service Handle") {
+		return
+	}
+	filledWhole := func(buf ssa.Value, fn *ssa.Function) bool {
+		for _, call := range Calls(fn) {
+			f := call.Common().StaticCallee()
+			if f == nil {
+				continue
+			}
+			if (FuncIs(f, "io", "ReadFull") || FuncIs(f, "io", "ReadAtLeast")) && len(call.Common().Args) >= 2 {
+				for _, lf := range leaves(call.Common().Args[1]) {
+					if sliceBase(lf) == sliceBase(buf) {
+						return true
+					}
+				}
+			}
+		}
+		return false
+	}
+	var judge func(v ssa.Value, fn *ssa.Function, depth int) (bool, string)
+	judge = func(v ssa.Value, fn *ssa.Function, depth int) (bool, string) {
+		for _, lf := range leaves(v) {
+			if IsNilConst(lf) {
+				continue
+			}
+			switch x := lf.(type) {
+			case *ssa.Extract:
+				if call, ok := x.Tuple.(*ssa.Call); ok && x.Index == 0 {
+					f := call.Call.StaticCallee()
+					if FuncIs(f, "io/ioutil", "ReadAll") || FuncIs(f, "io", "ReadAll") {
+						continue
+					}
+					if f != nil && InRepo(f) && f.Blocks != nil && depth < 3 {
+						ok, why := true, ""
+						for _, r := range Returns(f) {
+							if o, w := judge(RetVals(r)[0], f, depth+1); !o {
+								ok, why = false, w
+							}
+						}
+						if ok {
+							continue
+						}
+						return false, "in " + shortFn(f) + ": " + why
+					}
+				}
+			case *ssa.Call:
+				f := x.Call.StaticCallee()
+				if f != nil && MethodIs(f, "bytes", "Buffer", "Bytes") {
+					// a bytes.Buffer filled by ReadFrom / io.Copy
+					for _, c2 := range Calls(fn) {
+						f2 := c2.Common().StaticCallee()
+						if f2 != nil && (MethodIs(f2, "bytes", "Buffer", "ReadFrom") || FuncIs(f2, "io", "Copy") || FuncIs(f2, "io", "CopyN")) {
+							return true, ""
+						}
+					}
+				}
+				if f != nil && InRepo(f) && f.Blocks != nil && depth < 3 && f.Signature.Results().Len() == 1 {
+					ok, why := true, ""
+					for _, r := range Returns(f) {
+						if o, w := judge(RetVals(r)[0], f, depth+1); !o {
+							ok, why = false, w
+						}
+					}
+					if ok {
+						continue
+					}
+					return false, "in " + shortFn(f) + ": " + why
+				}
+			case *ssa.MakeSlice:
+				if filledWhole(x, fn) {
+					continue
+				}
+				return false, "a buffer made at " + p.InstrPos(x) + " that no io.ReadFull/ReadAtLeast fills (a single Read may return before the body has arrived)"
+			case *ssa.Slice:
+				if filledWhole(x, fn) {
+					continue
+				}
+			}
+			return false, RenderN(lf, 3)
+		}
+		return true, ""
+	}
+	n := 0
+	for _, call := range Calls(handle) {
+		f := call.Common().StaticCallee()
+		if f == nil || !InRepo(f) || RelPkg(PkgOf(f)) != "services/ipp" || f.Signature.Recv() != nil {
+			continue
+		}
+		for i, a := range call.Common().Args {
+			if types.TypeString(a.Type(), nil) != "[]byte" || i >= len(f.Params) {
+				continue
+			}
+			// the message decoder: an in-repo function of the package that takes the raw request
+			n++
+			ok, why := judge(a, handle, 0)
+			c.Check(ok, rule, "request handed to "+shortFn(f), p.InstrPos(call), "the decoder receives a body that was read to its end",
+				"the bytes handed to the IPP decoder are "+why+": when the body arrives in more than one piece (a print job larger than what is buffered) the tail is missing or zero, attributes and document decode differently from what was sent")
+		}
+	}
+	c.Floor(rule, 1, "Handle → ippHandler")
 }
